@@ -346,6 +346,37 @@ fn datetime_keeps_time(acc: &mut Acc, z: i64) {
     }
 }
 
+/// month stepping of a zone-aware value in a zone whose offset changes (chrono_mc::gfzone): the step acts on the wall
+/// clock, which is then read in the zone at the *new* date
+fn months_in_changing_zone(acc: &mut Acc) {
+    use chrono_mc::gfzone::*;
+    let tz = GAPFOLD_2021;
+    for u in zone_starts(tz) {
+        let dt = tz.from_utc_datetime(&DateTime::from_timestamp(u, 0).unwrap().naive_utc());
+        let w = u + tz.offset_at(u) as i64;
+        let (wz, ws) = (w.div_euclid(86400), w.rem_euclid(86400));
+        let (y, m, d) = civil_from_days(wz);
+        for k in [0i64, 1, 2, 5, 6, 7, 11, 12, 13, 24] {
+            for neg in [false, true] {
+                let ym = y * 12 + m as i64 - 1 + if neg { -k } else { k };
+                let (ty, tm) = (ym.div_euclid(12), ym.rem_euclid(12) as u32 + 1);
+                let want = Some((days_from_civil(ty, tm, d.min(days_in_month(ty, tm))) * 86400 + ws, 0u32));
+                let got = guard(|| if neg { dt.checked_sub_months(Months::new(k as u32)) } else { dt.checked_add_months(Months::new(k as u32)) });
+                let got_val = got.clone().ok().flatten();
+                if judge_in_zone(acc, if neg { "DateTime<zone>::checked_sub_months" } else { "DateTime<zone>::checked_add_months" }, &|| format!("[{:?} at offset {}].{}(Months::new({})) in a zone with a skipped hour (2021-03-28 02:00-03:00) and a repeated hour (2021-10-31 02:00-03:00)", dt.naive_local(), dt.offset().off, if neg { "checked_sub_months" } else { "checked_add_months" }, k), tz, got, want).is_some() {
+                    acc.hit(DT_TIME);
+                    // the operator agrees with the checked form (panic where that is None)
+                    acc.transitions += 1;
+                    let op = guard(|| if neg { dt - Months::new(k as u32) } else { dt + Months::new(k as u32) }).ok();
+                    if op.map(|x| (x.naive_utc(), x.offset().off)) != got_val.map(|x| (x.naive_utc(), x.offset().off)) {
+                        acc.violation("DateTime<zone>:Months-operator", format!("[{:?} at offset {}] {} Months::new({})", dt.naive_local(), dt.offset().off, if neg { "-" } else { "+" }, k), format!("{:?}", got_val), format!("{:?}", op));
+                    }
+                }
+            }
+        }
+    }
+}
+
 fn main() {
     install_panic_hook();
     let args = parse_args();
@@ -419,6 +450,9 @@ fn main() {
             let i = (u - n_sweep) as usize;
             for &y in &ys_ext[i * 64..((i + 1) * 64).min(ys_ext.len())] {
                 nth_weekday(acc, y, &ns_all);
+            }
+            if i == 0 {
+                months_in_changing_zone(acc);
             }
             acc.traces += 1;
         } else {
